@@ -296,7 +296,7 @@ class UnitType(MichelsonType, prim='unit'):
         return False
 
     def __eq__(self, other: 'UnitType'):  # type: ignore
-        return True
+        return isinstance(other, UnitType)
 
     def __hash__(self):
         return hash(Unit)
